@@ -62,44 +62,74 @@ def run(ctx):
 
 def deciding_component(ctx, n):
     """tracks in which the component that decides presence (the first one) is +inf, -inf or NaN while the others are
-    finite - e.g. a centre of pressure computed as M/Fz with Fz = 0. The library treats such a frame as missing; whatever it
-    does, the three sizes must agree. (Outside C01's domain: the frame does not read back as given.)"""
+    finite - e.g. a centre of pressure computed as M/Fz with Fz = 0 -, and rows with NaN/inf elsewhere. The Lean model's `see`
+    (rowPresent: first component finite) says which rows the library stores; whatever it stores, the three sizes must agree.
+    (Outside C01's domain: such a row does not read back as given.)"""
+    import common
+    from sx import Sym
     rng = ctx.rng
-    stages = []
+    recs, cmds = [], []
     for i in range(n):
         kind = ["data3d", "emg", "force3d", "platdata"][i % 4]
+        k = A.NCOMP[kind]
         v0 = A.GEN[kind](rng)
         try:
             obj = A.build(kind, v0, wide=rng.random() < 0.3)
-            hits = 0
+            hits, raws = 0, []
             for it, _ in B.items_of(kind, obj):
-                attr = B.TRACK_ARRAYS[kind][0]
-                arr = getattr(it, attr)
-                for j in range(len(arr)):
-                    if rng.random() < 0.3:
-                        val = rng.choice([np.inf, -np.inf, np.nan])
-                        if arr.ndim == 1:
-                            B._w(it, attr, j, val)
-                        else:
-                            B._w(it, attr, (j, 0), val)
+                attrs = B.TRACK_ARRAYS[kind]
+                n_rows = len(getattr(it, attrs[0]))
+                for j in range(n_rows):
+                    r = rng.random()
+                    if r < 0.3:             # the deciding component
+                        arr = getattr(it, attrs[0])
+                        B._w(it, attrs[0], j if arr.ndim == 1 else (j, 0), rng.choice([np.inf, -np.inf, np.nan]))
                         hits += 1
-            A.DECIDING_RULE[0] = True
-            try:
-                r = B.observe_obj(kind, obj)
-            finally:
-                A.DECIDING_RULE[0] = False
+                    elif r < 0.4 and k > 1:  # some other component
+                        a = rng.choice(attrs)
+                        arr = getattr(it, a)
+                        if arr.ndim == 2 and (a != attrs[0] or arr.shape[1] > 1):
+                            B._w(it, a, (j, arr.shape[1] - 1), rng.choice([np.inf, np.nan]))
+                cols = [np.asarray(getattr(it, a)).reshape(n_rows, -1) for a in attrs]
+                raws.append(A.raw_rows(np.concatenate(cols, axis=1), k))
+            r = B.observe_obj(kind, obj)
         except Exception as e:
-            ctx.fail(f"{kind}: a block with a non-finite deciding component cannot be built/observed: {type(e).__name__}: {e}", dict(kind=kind, v=v0), ident=f"{kind} deciding component raises")
+            ctx.fail(f"{kind}: a block with non-finite components cannot be built/observed: {type(e).__name__}: {e}", dict(kind=kind, v=v0), ident=f"{kind} non-finite components raise")
             continue
-        if hits and "abs0" in r:
-            stages.append((kind, r["abs0"], dict(deciding_component_non_finite=hits, start=v0), r))
-    import numpy  # noqa: F401
+        if hits:
+            recs.append((kind, v0, raws, r, hits))
+            cmds += [[Sym("rle.see"), k, rows] for rows in raws]
+    replies = common.drv_batch(cmds)
+    pos = 0
+    stages = []
+    for kind, v0, raws, r, hits in recs:
+        views = replies[pos:pos + len(raws)]
+        pos += len(raws)
+        rep = dict(kind=kind, start=v0, raw_rows=raws if len(repr(raws)) < 3000 else None)
+        ctx.case((kind, str(raws)[:400], "deciding"), nontrivial=True, tags=[kind, "non-finite-components"])
+        # the abstract value the model's presence rule gives this object: its frames replaced by `see raw`
+        v = A.norm(v0)
+        seen = [A.norm(w[0]) for w in views]
+        if kind == "platdata":
+            v[4] = seen
+        else:
+            v[-1] = [[t[0], fr] for t, fr in zip(v[-1], seen)]
+        # per track: declared size, bytes written, and (through the block decode) what reads back
+        for ti, ((nb, ln), w) in enumerate(zip(r.get("items", []), views)):
+            extra = 0 if kind == "platdata" else 256
+            if nb != ln:
+                ctx.fail(f"{kind}: track {ti} with non-finite components: nBytes={nb} but {ln} bytes are written", rep, ident=f"{kind} item nBytes!=written (non-finite)")
+            if ln != w[2] + extra or nb != w[3] + extra:
+                ctx.diff("rle.see", f"{kind}: track {ti}: real writes {ln} / declares {nb}; model writes {w[2] + extra} / declares {w[3] + extra}", rep)
+        stages.append((kind, v, dict(non_finite_components=hits), r))
     models = B.model_side([(k, v) for k, v, _, _ in stages])
     for (kind, v, opts, r), m in zip(stages, models):
         if not m["valid"]:
             continue
-        ctx.case((kind, v, "deciding"), nontrivial=True, tags=[kind, "deciding-component-non-finite"])
+        r = dict(r, abs0=v)
         judge(ctx, kind, v, opts, r, m)
+        if r.get("dec_abs") is not None and r["dec_abs"] != v:
+            ctx.diff("rle.see.decode", f"{kind}: what reads back differs from the model's view of the raw rows", dict(kind=kind, v=v))
 
 
 def capture_sizes(ctx):
